@@ -102,6 +102,8 @@ def run_1090(bindir, segs, sent, tag):
 
 
 def run_radar(bindir, script, sent, tag, mode, extra_args=()):
+    if tag == "malformed" and sum(len(str(x)) for x in sent) % 3 == 0:
+        extra_args = list(extra_args) + ["--limit-parsing"]          # option combination: only DF17 is decoded, every line is still taken
     srv = apps.FeedServer(script)
     srv.start()
     rd = apps.Radar(bindir, srv.port, RX + list(extra_args))
